@@ -421,6 +421,8 @@ class DatasetSpec:
             for k, kind in pairs:
                 prev = model["d"].get(k)
                 tag = 1 if prev is None else prev[1] % 3 + 1
+                if kind == "G0":
+                    tag = 0  # an empty group shows no tag: the tag must stay a function of the visible state
                 vals[k] = make_ds_value(kind, tag)
                 tagged.append((k, kind, tag))
             fail_at = None
